@@ -168,6 +168,8 @@ def run(chk: Check):
     # string mode serves error text from token `line`s: string tokens must carry their lines (C08 L2); the cache must be
     # per parser (C13 U2/U3)
     from .c08 import rule_l2
+    from .c11 import rule_y3b
+    rule_y3b(chk, ix)
     from .c13 import rule_u2, rule_u3
     rule_l2(chk, ix)
     from .c08 import rule_l5
